@@ -604,6 +604,15 @@ class Subspace(IdealPoint):
             model=Model.PROJECTIVE
         )
 
+        # a subspace through the origin is a flat in the Poincare model,
+        # so its "center" is at infinity: use any vector orthogonal to
+        # the subspace instead
+        at_infinity = ~np.isfinite(spacelike_guess).all(axis=-1)
+        if at_infinity.any():
+            normals = utils.kernel(self.ideal_basis @ self.minkowski)[..., 0]
+            spacelike_guess = np.where(at_infinity[..., np.newaxis],
+                                       normals, spacelike_guess)
+
         to_orthogonalize = np.concatenate(
             [np.expand_dims(midpoints, axis=-2),
             self.ideal_basis[..., 1:, :],
